@@ -220,6 +220,20 @@ def scenario(par):
     one_call(par, 3, [])
 
 
+# how the PARENT treats SIGCHLD: the exit status of a dead worker may be impossible to collect
+if sc.get("sigchld") == "ign":
+    signal.signal(signal.SIGCHLD, signal.SIG_IGN)        # children are auto-reaped, Process.exitcode stays None
+elif sc.get("sigchld") == "reaper":
+    import threading
+
+    def _reaper():
+        while True:
+            try:
+                os.waitpid(-1, 0)                          # another thread steals the exit statuses
+            except ChildProcessError:
+                time.sleep(0.01)
+    threading.Thread(target=_reaper, daemon=True).start()
+
 kw = dict(n_jobs=N)
 if KIND == "mgr_busy":
     kw["batch_size"] = 1      # the slow result and the victim must travel in different batches
